@@ -34,6 +34,11 @@ COMPOSE = [("QuartzModel.Theorems.Compose", "Sched." + t) for t in [
     "cron_job_runs_exactly_the_first_matches", "cron_job_no_skip_from_empty", "cron_job_leaves_when_expired", "cron_job_stays_iff_match_left",
     "parsed_cron_job_runs_only_at_matching_instants", "parsed_cron_job_never_early"]]
 
+# the clock a fire time is computed from is read inside the critical section (regenerated: NowNano() and the trigger call come after queueLocker.Lock()
+# in ResumeJob and ScheduleJob; validateJob's clock under the lock of fetchAndReschedule)
+CLOCKFACTS = [("QuartzModel.Theorems.ClockFacts", "Sched.Clock." + t) for t in [
+    "clock_facts", "read_in_critical_section", "stale_read_precedes_pause", "C08_resume_moment", "C09_schedule_moment"]] + [
+    ("QuartzModel.Theorems.ClockFacts", "Facts.missing_none_clockorder")]
 THEOREMS = {
     # (a job popped before its time must go back with its fire time untouched: the dispatch step's facts are obligations here too)
     "C05": TIMERFACTS + [t for t in SCHEDFACTS if t[0] == "QuartzModel.Theorems.SchedFacts"] + [("QuartzModel.Theorems.MissingWakeup", "Facts.missing_none_wakeup"),
@@ -97,10 +102,10 @@ THEOREMS = {
         'wrapAdd_neg', 'C04_addNanos_is_satAdd', 'C04_overflow_spins_unrepaired']] +
            [("QuartzModel.Proofs.SchedLemmas", "Sched." + t) for t in ['satAdd_eq', 'satAdd_sat', 'satAdd_le', 'satAdd_ge', 'no_drift_aux', 'parked_aux']] +
            # the interval triggers of the source are the model's (regenerated fact: SimpleTrigger / RunOnceTrigger / addNanos statements)
-           [("QuartzModel.Theorems.TriggerFacts", "Sched.trigger_interval_add"), ("QuartzModel.Theorems.TriggerFacts", "Sched.trigger_fire_spec")], "C08": SCHEDFACTS + WAKEFACTS + [("QuartzModel.Theorems.C12", "Pool.C12_facts")] + [("QuartzModel.Theorems.C08", "Sched." + t) for t in ['C08_pause_effect', 'C08_resume_from_now', 'C08_paused_no_consumption', 'C08_delete_effect', 'C08_clear_effect', 'C08_paused_no_consumption_reachable', 'C08_delete_effect_reachable', 'C08_clear_effect_reachable',
+           [("QuartzModel.Theorems.TriggerFacts", "Sched.trigger_interval_add"), ("QuartzModel.Theorems.TriggerFacts", "Sched.trigger_fire_spec")], "C08": CLOCKFACTS + SCHEDFACTS + WAKEFACTS + [("QuartzModel.Theorems.C12", "Pool.C12_facts")] + [("QuartzModel.Theorems.C08", "Sched." + t) for t in ['C08_pause_effect', 'C08_resume_from_now', 'C08_paused_no_consumption', 'C08_delete_effect', 'C08_clear_effect', 'C08_paused_no_consumption_reachable', 'C08_delete_effect_reachable', 'C08_clear_effect_reachable',
                 # the full-strength "ResumeJob re-activates it" is FALSE for a run-once job paused before its fire time: proved witness (known finding)
                 'C08_resume_run_once_fails']],
-    "C09": [("QuartzModel.Theorems.C09", "Sched." + t) for t in ['C09_schedule_error_unchanged', 'C09_schedule_error_state_unchanged', 'C09_delete_error_unchanged', 'C09_pause_error_unchanged', 'C09_resume_error_unchanged', 'C09_schedule_error_iff', 'C09_delete_error_iff', 'C09_pause_error_iff', 'C09_resume_error_iff', 'C09_keys_unique', 'C09_keys_unique_entry', 'C09_keys_unique_count', 'C09_replace_exact', 'C09_no_replace_rejected']] + [("QuartzModel.Theorems.C09Lin", "Sched." + t) for t in ["C09_lock_facts", "C09_unlocked_are_reads", "C09_schedule_reads_under_lock", "pauseOp_run", "C09_linearizable"]] +
+    "C09": CLOCKFACTS + [("QuartzModel.Theorems.C09", "Sched." + t) for t in ['C09_schedule_error_unchanged', 'C09_schedule_error_state_unchanged', 'C09_delete_error_unchanged', 'C09_pause_error_unchanged', 'C09_resume_error_unchanged', 'C09_schedule_error_iff', 'C09_delete_error_iff', 'C09_pause_error_iff', 'C09_resume_error_iff', 'C09_keys_unique', 'C09_keys_unique_entry', 'C09_keys_unique_count', 'C09_replace_exact', 'C09_no_replace_rejected']] + [("QuartzModel.Theorems.C09Lin", "Sched." + t) for t in ["C09_lock_facts", "C09_unlocked_are_reads", "C09_schedule_reads_under_lock", "pauseOp_run", "C09_linearizable"]] +
            [("QuartzModel.Concurrency.Lock", "Lock.linearizable")] +
            # the loop's pop / classify / ask-the-trigger / push step is one critical section (one atomic step of the linearizability argument)
            [t for t in SCHEDFACTS if t[1] not in ("Sched.C09_lock_facts", "Sched.C09_unlocked_are_reads")],
